@@ -14,6 +14,14 @@ rc::Gen<Case> genFor(const std::string &id, int tier) {
         auto edited = concat({genFileOpsFor(tier, true), one(op("load", {})), genScriptOpsFor("C03e", tier), pad});
         return asCase(rc::gen::oneOf(scratch, scratch, edited));
     }
+    if (id == "C01") {
+        // mostly content assembled from scratch; one history in five assembles it on top of a generated file that was loaded first
+        // (vendor layouts, first frame number > 1, events, byte parameters): what is then saved must load back the same too
+        auto one = [](rc::Gen<Op> o) { return rc::gen::map(o, [](Op x) { return std::vector<Op>{x}; }); };
+        auto scratch = genScriptOpsFor(id, tier);
+        auto edited = concat({genFileOpsFor(tier, true), one(op("load", {})), genScriptOpsFor("C01e", tier)});
+        return asCase(rc::gen::weightedOneOf<std::vector<Op>>({{4, scratch}, {1, edited}}));
+    }
     if (id == "C13" || id == "C14") {
         // union workload: API histories from scratch, or a generated file that is loaded and then edited
         auto one = [](rc::Gen<Op> o) { return rc::gen::map(o, [](Op x) { return std::vector<Op>{x}; }); };
@@ -26,7 +34,7 @@ rc::Gen<Case> genFor(const std::string &id, int tier) {
         auto one = [](rc::Gen<Op> o) { return rc::gen::map(o, [](Op x) { return std::vector<Op>{x}; }); };
         auto lim = [](long long kind, std::vector<long long> vals) { return op("limit", {rc::gen::just(kind), rc::gen::elementOf(vals)}); };
         auto anyLimit = rc::gen::oneOf(lim(0, {254, 255, 256, 400}), lim(1, {126, 127, 128, 200}), lim(2, {126, 127, 128, 200}), lim(3, {254, 255, 256, 1000}),
-                                       lim(4, {254, 255, 256, 300}), lim(5, {32766, 32767, 32768, -32768, -32769, 70000}), lim(10, {6, 7, 8}), lim(9, {100, 250, 258, 262, 300}));
+                                       lim(4, {254, 255, 256, 300}), lim(5, {32766, 32767, 32768, -32768, -32769, 70000}), lim(10, {6, 7, 8}), lim(9, {100, 250, 258, 262, 300}), lim(16, {1, 254, 255, 256, 300}), lim(17, {254, 255, 256, 300}));
         auto shape = rc::gen::oneOf(lim(6, {1, 3, 254, 255, 256, 300}), lim(7, {1, 2, 254, 255, 256, 300}));
         auto frames = lim(8, {1, 2, 5});
         return asCase(concat({ops(anyLimit, 3), one(shape), one(op("prate", {uni(0, 10)})), one(op("arate", {uni(0, 3)})), one(frames), ops(anyLimit, 2)}));
